@@ -335,7 +335,9 @@ func RunWorker(o *Options) int {
 			// Record the find before minimising: minimisation re-executes damaged code many times
 			// and the process may not survive it (fatal out-of-memory, stack overflow). The parent
 			// falls back to these lines when the worker dies.
-			if p0, err := writeReplayRaw(o, c, plan, v, run); err == nil {
+			if c.NoMinimise || knownKeys[v.Key] {
+				// nothing is re-executed for these: no early record needed
+			} else if p0, err := writeReplayRaw(o, c, plan, v, run); err == nil {
 				fb, _ := json.Marshal(foundViolation{V: v, ReplayPath: p0, OrigSteps: len(plan.Steps), MinSteps: len(plan.Steps), RunIndex: i, WorkerFrom: o.From})
 				fmt.Printf("POLYSIM-FOUND %s\n", fb)
 			}
